@@ -63,8 +63,6 @@ Typical use (rules/c11.py):
         for so in proto.sorts: why = is_prefix(sk, site_key(fb, so))
     for c in proto.phase_conflicts(): R.bad(...)
 """
-from collections import deque
-
 from .flow import guards_of, path_search
 
 SORT_ALGOS = {'std::sort': 2, 'std::stable_sort': 2}
@@ -259,11 +257,9 @@ def _access_path(g, nid):
 def _operand_type(g, nid):
     """(type of the accessor, type it is compared as)."""
     outer = g.nodes.get(nid, {}).get('t', '?')
-    x = nid
     # look through value-preserving wrappers only (lvalue-to-rvalue icasts keep the type; conversions change it)
     inner = g.sn(nid)
     it = inner.get('t', '?') if inner is not None else '?'
-    del x
     return strip_cvref(it), strip_cvref(outer)
 
 
@@ -280,7 +276,7 @@ def _binary_operands(g, n):
     return None
 
 
-def _comps_of_comparison(g, nid, L, R):
+def _comps_of_comparison(fb, g, nid, L, R, depth=0):
     n = g.sn(nid)
     if n is None:
         raise UnknownShape('empty comparator expression')
@@ -290,7 +286,7 @@ def _comps_of_comparison(g, nid, L, R):
     op, a, b, how = ops
     if op == '||':
         # x < y || (x == y && REST)
-        first = _comps_of_comparison(g, a, L, R)
+        first = _comps_of_comparison(fb, g, a, L, R, depth)
         rn = g.sn(b)
         ro = _binary_operands(g, rn) if rn is not None else None
         if ro is None or ro[0] != '&&':
@@ -303,7 +299,7 @@ def _comps_of_comparison(g, nid, L, R):
         rb, pb = _access_path(g, eo[2])
         if pa != pb or pa != first[0].path or {ra, rb} != {L, R}:
             raise UnknownShape('lexicographic chain: equality guard compares a different accessor than the ordering test')
-        return first + _comps_of_comparison(g, ro[2], L, R)
+        return first + _comps_of_comparison(fb, g, ro[2], L, R, depth)
     if op not in ('<', '>'):
         raise UnknownShape('comparator uses operator %s (only strict < / > orderings are keys)' % op)
     an, bn = g.sn(a), g.sn(b)
@@ -315,12 +311,12 @@ def _comps_of_comparison(g, nid, L, R):
             raise UnknownShape('tuple comparison with different arities')
         out = []
         for x, y in zip(xs, ys):
-            out.append(_one_comp(g, x, y, L, R, op == '>', 'tuple'))
+            out.extend(_one_comp(fb, g, x, y, L, R, op == '>', 'tuple', None, depth))
         return out
-    return [_one_comp(g, a, b, L, R, op == '>', how)]
+    return _one_comp(fb, g, a, b, L, R, op == '>', how, n.get('u'), depth)
 
 
-def _one_comp(g, a, b, L, R, desc, how):
+def _one_comp(fb, g, a, b, L, R, desc, how, usr=None, depth=0):
     ra, pa = _access_path(g, a)
     rb, pb = _access_path(g, b)
     if ra is None or rb is None:
@@ -338,8 +334,19 @@ def _one_comp(g, a, b, L, R, desc, how):
         if (ta, ca) != (tb, cb) and how == 'builtin':
             cmp = 'builtin %s as %s / %s as %s' % (ta, ca, tb, cb)
     else:
+        # user-defined operator: when its body is a key comparator itself (e.g. a lambda `l < r` delegating to the element's
+        # operator<, or a sub-object with a tie-based operator<), splice its components in under this access path
+        if fb is not None and usr and depth < 4:
+            for h in fb.by_usr.get(usr, []):
+                if not h.has_cfg:
+                    continue
+                try:
+                    sub = key_of_comparator(fb, h, depth + 1)
+                except UnknownShape:
+                    break
+                return [Comp(pa + c.path, c.desc != desc, c.cmp) for c in sub.comps]
         cmp = '%s on %s' % (how, ta)
-    return Comp(pa, desc, cmp)
+    return [Comp(pa, desc, cmp)]
 
 
 def comparator_operands(g):
@@ -352,13 +359,13 @@ def comparator_operands(g):
     raise UnknownShape('%s does not take two operands' % g.q)
 
 
-def key_of_comparator(fb, g):
+def key_of_comparator(fb, g, depth=0):
     """Key of one comparator body (operator<, functor operator(), lambda): exactly one `return <comparison>;`."""
     L, R = comparator_operands(g)
     rets = [n for n in g.all_nodes() if n.get('k') == 'return']
     if len(rets) != 1 or 'sub' not in rets[0]:
         raise UnknownShape('%s has %d return statements (a key comparator is a single return expression)' % (g.q, len(rets)))
-    return Key(_comps_of_comparison(g, rets[0]['sub'], L, R), g.q, g.site)
+    return Key(_comps_of_comparison(fb, g, rets[0]['sub'], L, R, depth), g.q, g.site)
 
 
 def default_key(fb, t):
@@ -850,5 +857,3 @@ __all__ = ['UnknownShape', 'Comp', 'Key', 'Site', 'Protocol', 'algo_sites', 'sit
            'is_prefix', 'site_equality_fields', 'fields_subset_of_key', 'order_in_function', 'container_protocol',
            'find_phase_flag', 'flag_guard', 'flag_writes', 'key_field_writes', 'ctor_field_sources', 'resolve_callable',
            'element_type', 'plain_name', 'strip_cvref', 'split_targs', 'is_scalar']
-
-_ = deque  # keep the import list stable for users that monkeypatch traversal order
